@@ -23,6 +23,9 @@ def build_transformer(spec):
         from sktime.forecasting.trend import PolynomialTrendForecaster
         from sktime.transformations.series.detrend import Detrender
 
+        if spec["degree"] == 1 and spec.get("default"):
+            # the documented default (a linear trend) left to the transformer itself
+            return Detrender()
         return Detrender(PolynomialTrendForecaster(degree=spec["degree"]))
     if k == "boxcox":
         from sktime.transformations.series.boxcox import BoxCoxTransformer
@@ -328,6 +331,7 @@ def transformer_specs(allow_boxcox=True):
         st.builds(lambda sp, m: {"kind": "deseason", "sp": sp, "model": m}, st.integers(1, 5),
                   st.sampled_from(["additive", "multiplicative"])),
         st.builds(lambda d: {"kind": "detrend", "degree": d}, st.integers(0, 2)),
+        st.just({"kind": "detrend", "degree": 1, "default": True}),
         st.just({"kind": "log"}),
         st.builds(lambda w: {"kind": "scaler", "which": w}, st.sampled_from(["standard", "minmax"])),
         st.builds(lambda nm: {"kind": "func", "name": nm}, st.sampled_from(["sqrt", "cbrt"])),
